@@ -464,6 +464,33 @@ fn witnesses() -> Vec<(&'static str, String)> {
         let q = home(schema(), vec![], vec![b(), a()]);
         out.push(("C15 order-same-object-argument", format!("arrange\tperm\t{}\t{}", to_wire(&p), to_wire(&q))));
     }
+    // C15: variables inside object literals, passed along client fields (af3b32d substitutes at any depth)
+    {
+        let schema = || vec![obj_type("Query", vec![fd("score", vec![ad("by", named("In"))], named("Int"))]), input()];
+        let var_obj = |v: &str| Value::Object(vec![("a".to_string(), Value::var(v))]);
+        let inner = |name: &str, var: &str, ty: TypeRef, arg: Value| {
+            (
+                "src/Home.tsx".to_string(),
+                Decl::ClientField(ClientField {
+                    parent: "Query".into(),
+                    name: name.into(),
+                    vars: vec![VarDef { name: var.into(), ty, default: None }],
+                    directives: vec![],
+                    description: None,
+                    selections: vec![sel(None, "score", vec![("by", arg)], None)],
+                }),
+            )
+        };
+        let build = |first: bool| {
+            let a = sel(None, "Inner", vec![("f", var_obj("n"))], None);
+            let b = sel(None, "Inner2", vec![("x", Value::var("n"))], None);
+            let mut p = home(schema(), vec![VarDef { name: "n".into(), ty: named("Int"), default: None }], if first { vec![a, b] } else { vec![b, a] });
+            p.decls.insert(0, inner("Inner", "f", named("In"), Value::var("f")));
+            p.decls.insert(1, inner("Inner2", "x", named("Int"), var_obj("x")));
+            p
+        };
+        out.push(("C15 nested-variable-through-client-field", format!("arrange\tperm\t{}\t{}", to_wire(&build(true)), to_wire(&build(false)))));
+    }
     // C16: required argument missing on a selection WITH a selection set
     {
         let schema = vec![obj_type("Query", vec![fd("pet", vec![ad("id", named("ID").non_null())], named("Pet"))]), pet()];
